@@ -61,7 +61,7 @@ def build_case(scen: dict, params: dict, pretty='listing') -> tuple[dict, dict]:
         files = {k: re.sub(r'(?m)^(#\w+) ', lambda m: m.group(1) + '\t', v) for k, v in files.items()}
     case = {'config': isa_for(params), 'files': files, 'main': 'main.asm', 'start': params.get('win_start', 0),
             'end': params.get('win_end'), 'fill': params.get('fill', 0), 'pretty': pretty,
-            'include_dirs': [], 'timeout': 10.0, 'verbose': params.get('verbose', 0)}
+            'include_dirs': [], 'timeout': 10.0, 'verbose': params.get('verbose', 0), 'defines': list(params.get('defines', []))}
     return case, pos
 
 
